@@ -465,9 +465,11 @@ def b_tuple(interp, args, kwargs, node):
     if not args:
         return ()
     v = args[0]
-    from .heapmodel import SAbstractSet
+    from .heapmodel import SAbstractSet, SMemberTableGen, consume_member_table
     if isinstance(v, SAbstractSet):
         return v            # an immutable snapshot already
+    if isinstance(v, SMemberTableGen):
+        return consume_member_table(interp, v, node)
     p_ = as_pipe(v)
     if p_ is not None:
         return p_
